@@ -470,6 +470,37 @@ def run_jwe(ctx):
                 more.append(("cli.run", {"argv": ["jwe", "dec", "-i", parse_out(r, None).strip(), "-k", "k0.jwk"], "files": {"k0.jwk": hx(js(a["_key"]))}, "_why": "after fmt: " + a["_why"]}))
         elif r.get("status") != 0 or r.get("stdout") != hx(pt):
             ctx.pfails.append(("cli:jwe-enc:not-accepted", "a JWE produced by jose jwe enc does not decrypt to the plaintext with jose jwe dec (%s)" % a["_why"], o, strip(a), r))
+    # jwe fmt -c of general-form objects: one recipient converts (and still decrypts), more than one is refused
+    gen_ops = []
+    for n in (1, 2, 3):
+        ks = [pool["oct-16"], pool["oct-32"], pool["oct-24"]][:n]
+        gen_ops.append(("jwe.enc", {"jwe": {"protected": {"enc": "A128GCM", "alg": "A128KW" if n == 1 else None}} if False else
+                                    {"protected": dict({"enc": "A128GCM"}, **({"alg": "A128KW"} if n == 1 else {}))},
+                                    "rcp": {} if n > 1 else None, "jwk": ks if n > 1 else ks[0], "pt": pt.hex(), "rand": rng.randbytes(400).hex()}))
+    gen_ops = [(o, {k: v for k, v in a.items() if v is not None}) for o, a in gen_ops]
+    for (o, a), r in zip(gen_ops, ctx.real(gen_ops)):
+        if not r.get("ok"):
+            ctx.pfails.append(("cli:setup", "library refused to encrypt", o, a, r))
+            continue
+        tok = r["jwe"]
+        n = len(a["jwk"]) if isinstance(a["jwk"], list) else 1
+        forms = [tok]
+        if n == 1:      # the same single recipient spelled in general form
+            g = {k: v for k, v in tok.items() if k not in ("encrypted_key", "header")}
+            g["recipients"] = [{k: tok[k] for k in ("encrypted_key", "header") if k in tok}]
+            forms.append(g)
+        for t in forms:
+            rr = ctx.real([("cli.run", {"argv": ["jwe", "fmt", "-i", js(t), "-c"], "files": {}})])[0]
+            ctx.evaluations += 1
+            if n > 1 and rr.get("status") == 0:
+                ctx.pfails.append(("cli:jwe-fmt:compact-many", "jose jwe fmt -c of a JWE with %d recipients exits 0 and prints %r" % (
+                    n, bytes.fromhex(rr.get("stdout") or "").decode("utf-8", "replace")[:120]), "cli.run", {"argv": ["jwe", "fmt", "-i", js(t), "-c"], "files": {}}, rr))
+            elif n == 1 and rr.get("status") != 0:
+                ctx.pfails.append(("cli:jwe-fmt:refused", "compact conversion of a single-recipient JWE refused (%s form)" % ("general" if "recipients" in t else "flattened"),
+                                   "cli.run", {"argv": ["jwe", "fmt", "-i", js(t), "-c"], "files": {}}, rr))
+            elif n == 1:
+                more.append(("cli.run", {"argv": ["jwe", "dec", "-i", parse_out(rr, None).strip(), "-k", "k0.jwk"], "files": {"k0.jwk": hx(js(a["jwk"]))},
+                                         "_why": "after fmt -c of a %s single-recipient JWE" % ("general" if "recipients" in t else "flattened")}))
     for (o, a), r in zip(more, ctx.real([(o, strip(a)) for o, a in more])):
         ctx.evaluations += 1
         if r.get("status") != 0 or r.get("stdout") != hx(pt):
